@@ -663,6 +663,27 @@ def failures_reported(it):
     return bool(it.ghost.get('add_failures'))
 
 
+@specfn
+def reconstruction_handed_on(it):
+    return it.ghost.get('reconstruction_given') is not None
+
+
+@specfn
+def some_line_removed(it, actual, expected, rem):
+    """A remove-substring occurs in some line of either text (after the trailing empty line is dropped)."""
+    from pyvc.sym import str_contains
+    if not rem:
+        return False
+    alts = []
+    for lines in (list(_effective(it, actual)), list(_effective(it, expected))):
+        for k, l in enumerate(lines):
+            has = z3.Or(*[str_contains(strz(it, l), strz(it, r)) for r in rem])
+            if k == len(lines) - 1:
+                has = z3.And(has, slen(strz(it, l)) != 0)
+            alts.append(has)
+    return SBool(z3.Or(*alts)) if alts else False
+
+
 def _cs_entry(it, senv):
     diffs = SObj('Diffs', {'__open__': True}, label='msgs')
     diffs.methods['add_reconstruction'] = Builtin(lambda it2, self, r: None, 'Diffs.add_reconstruction')
@@ -696,8 +717,12 @@ class _CheckStrings(Contract):
                          'and its result is an opaque listing')
         rc.defaults = {'format': None}
         reg[CF + 'FilesComparison.reconstruct'] = rc
+        def _af_effect(it, env):
+            it.ghost['add_failures'] = True
+            args = env.get('_extra_args') or ()
+            it.ghost['reconstruction_given'] = args[1] if len(args) > 1 else (env.get('_extra_kwargs') or {}).get('reconstruction')
         af = Contract(CF + 'FilesComparison.add_failures', params={},
-                      effects=lambda it, env: it.ghost.__setitem__('add_failures', True), result=T.none, assumed=True,
+                      effects=_af_effect, result=T.none, assumed=True,
                       name='add_failures(report)', spec_env=ENV,
                       trusted_note='add_failures only reports (messages, temporary files: verified under C15); '
                                    'the verdict does not depend on it')
@@ -725,7 +750,8 @@ def _cs_contract(la, le, preprocessed=False):
         self_view=_perm_view, on_entry=_cs_entry,
         inline=[CF + 'FilesComparison.normalize_function', CF + 'FilesComparison.wrong_content'],
         spec_env=dict(ENV, texts_must_pass=texts_must_pass, texts_must_fail=texts_must_fail,
-                      failures_reported=failures_reported),
+                      failures_reported=failures_reported, reconstruction_handed_on=reconstruction_handed_on,
+                      some_line_removed=some_line_removed),
         ensures=[('passes-when-the-texts-agree-modulo-the-declared-exclusions',
                   'implies(texts_must_pass(actual, expected, lstrip, rstrip, ignore_substrings, remove_lines, '
                   'max_permutation_cases), result.failures == 0)'),
@@ -735,7 +761,10 @@ def _cs_contract(la, le, preprocessed=False):
                  ('failures-is-0-or-1', 'result.failures == 0 or result.failures == 1'),
                  ('a-passing-comparison-reports-and-writes-nothing',
                   'result.failures != 0 or not failures_reported()'),
-                 ('a-failing-comparison-is-reported', 'result.failures == 0 or failures_reported()')],
+                 ('a-failing-comparison-is-reported', 'result.failures == 0 or failures_reported()'),
+                 ('a-failure-with-removed-lines-hands-on-the-post-processed-texts',
+                  'implies(result.failures == 1 and some_line_removed(actual, expected, remove_lines), '
+                  'reconstruction_handed_on())')],
         max_paths=400000)
     c.shape = (la, le)
     c.preprocessed = preprocessed
